@@ -27,6 +27,7 @@ type Result struct {
 	Tasks    []*Task
 	Before   map[string]map[string]string // server -> id -> json, before the run
 	After    map[string]map[string]string
+	faultedDeref map[string]bool
 }
 
 func callerFn() string {
@@ -185,6 +186,9 @@ func Execute(t *testing.T, spec *RunSpec) *Result {
 			site := panicSite(tk.PanicStk)
 			s.violate("C11", "panic", site, fmt.Sprintf("task %s (%s) panicked: %v", tk.ID, tk.EntryKind, tk.Panic))
 		}
+	}
+	if s.Verdict == "budget" {
+		s.violate("C11", "no-return", "step-budget", fmt.Sprintf("no return within %d seam steps", s.maxSteps))
 	}
 	if s.Verdict == "deadlock" {
 		s.violate("C08", "deadlock", deadlockSite(s), lastDeadlock(s))
